@@ -301,6 +301,69 @@ def _history(ps, case, xs):
     return bad
 
 
+def _snapshot():
+    """Mutable state that is shared between instances: class attributes of PSplines and module globals of the
+    smoothing / basis modules (lists, dicts, sets, arrays) — must not change when objects are fitted."""
+    import FDApy.misc.basis as mb
+    import FDApy.preprocessing.smoothing.psplines as mp
+
+    snap = {}
+    spaces = [("PSplines", vars(mp.PSplines)), ("psplines.py", vars(mp)), ("misc/basis.py", vars(mb))]
+    for nm, ns in spaces:
+        for k, v in list(ns.items()):
+            if k.startswith("__") and k.endswith("__"):
+                continue
+            if isinstance(v, (list, dict, set, bytearray)):
+                snap[f"{nm}.{k}"] = repr(v)[:200]
+            elif isinstance(v, np.ndarray):
+                snap[f"{nm}.{k}"] = repr(v.tolist())[:200]
+    return snap
+
+
+def _interleave(ps, case, xs, y, w, out):
+    """Other estimator objects are created, fitted and used between two uses of the object under test: on another
+    range, with other sizes, sometimes another dimension.  Returns the first inconsistency (None if none)."""
+    from FDApy.preprocessing.smoothing.psplines import PSplines
+
+    rng = Rng(f"inter-{case['sub']}")
+    d = case["d"]
+    arg = lambda g, dd: g[0] if dd == 1 else list(g)  # noqa: E731
+    y_hat0 = np.asarray(ps.y_hat).copy()
+    hat0 = np.asarray(ps.diagnostics["hat_matrix"]).copy()
+    pred0 = np.asarray(ps.predict(arg(xs, d))).copy()
+    others = []
+    for k in range(rng.randint(1, 2)):
+        dB = rng.choice([1, 2, d])
+        gB = [np.linspace(float(rng.choice([-50, 3, 1000])), float(rng.choice([2000, 5000])), rng.randint(5, 8)) for _ in range(dB)]
+        yB = np.array([float(rng.dyadic(-4, 4, 2)) for _ in range(int(np.prod([len(g) for g in gB])))]).reshape([len(g) for g in gB])
+        B = PSplines(n_segments=np.array([rng.randint(1, 3) for _ in range(dB)]), degree=np.array([rng.randint(1, 3) for _ in range(dB)]),
+                     order_penalty=rng.randint(1, 2))
+        B.fit(yB, arg(gB, dB), penalty=tuple(2.0 ** rng.randint(-2, 2) for _ in range(dB)))
+        others.append((B, gB, dB, np.asarray(B.y_hat).copy()))
+        # the object under test must not have noticed
+        try:
+            p1 = np.asarray(ps.predict(arg(xs, d)))
+        except Exception as e:  # noqa: BLE001
+            return f"after another PSplines object was fitted ({dB}-D), predict(fit grid) of the first object raises {err_class(e)}: {str(e)[:80]}"
+        if p1.shape != pred0.shape:
+            return f"after another PSplines object was fitted ({dB}-D), predict(fit grid) of the first object has shape {p1.shape} instead of {pred0.shape}"
+        if not np.array_equal(p1, pred0, equal_nan=True):
+            sc = max(np.abs(y_hat0).max(), 1e-300)
+            return f"after another PSplines object was fitted ({dB}-D, range [{gB[0][0]}, {gB[0][-1]}]), predict(fit grid) of the first object moved by {np.nanmax(np.abs(p1 - pred0)) / sc:.3g} (relative)"
+        if not np.array_equal(np.asarray(ps.y_hat), y_hat0, equal_nan=True):
+            return "fitting another PSplines object changed y_hat of the first one"
+    # refit the object under test with the same inputs, then go back to the others
+    _fit(ps, case, y, xs, w)
+    if not (np.array_equal(np.asarray(ps.y_hat), y_hat0, equal_nan=True) and np.array_equal(np.asarray(ps.diagnostics["hat_matrix"]), hat0, equal_nan=True)
+            and np.array_equal(np.asarray(ps.predict(arg(xs, d))), pred0, equal_nan=True)):
+        return "refitting the first object with the same inputs after other objects were used gives other results"
+    for B, gB, dB, yB0 in others:
+        pB = np.asarray(B.predict(arg(gB, dB)))
+        if not np.allclose(pB, yB0, rtol=0, atol=1e-10 * max(np.abs(yB0).max(), 1e-300)):
+            return f"after the first object was refitted, predict(fit grid) of another object ({dB}-D) differs from its y_hat by {np.abs(pB - yB0).max():.3g}"
+    return None
+
+
 def _rejected_calls(ps, case, xs, y, w, y_hat0, pred0):
     """Calls that the code rejects (exception), made on the fitted object; after each the fitted values must be
     unchanged and predict(fit grid) must still return them.  A call that is accepted ends the sequence."""
@@ -359,6 +422,7 @@ def run_impl(case):
     xs, shape, y, w = _setup(case)
     d = case["d"]
     out = {}
+    snap0 = _snapshot()
     ps = _new(case)
     if case.get("history"):
         # stale state: the SAME object has been fitted before — on the same grid, on grids sharing length and
@@ -395,6 +459,9 @@ def run_impl(case):
         sc["dims"] = [dict(dd, lam=rs(F(dd["lam"]) * F(case.get("wscale", "1/4")))) for dd in case["dims"]]
         fs = _fit(_new(case), sc, y, xs, cs * (np.ones(shape) if w is None else w))
         out["scaled"] = dict(y_hat=np.asarray(fs.y_hat).ravel().tolist(), hat=np.asarray(fs.diagnostics["hat_matrix"]).ravel().tolist())
+    # ---- other instances used in between: nothing may be shared between estimator objects
+    if case["sub"] % 2 == 0:
+        out["interleave_bad"] = _interleave(ps, case, xs, y, w, out)
     # ---- rejected calls on the fitted object: the fitted state must stay usable and consistent
     if case["sub"] % 5 < 3:
         out["rejected"] = _rejected_calls(ps, case, xs, y, w, np.asarray(ps.y_hat).copy(), np.array(out["pred_fit"]))
@@ -427,6 +494,8 @@ def run_impl(case):
             yp = yp + (u0 ** (case["ord"] - 1)) * (u1 ** (case["ord"] - 1))
         fp = _fit(_new(case), case, yp, xs, w)
         out["poly"] = dict(y=yp.ravel().tolist(), fit=np.asarray(fp.y_hat).ravel().tolist())
+    snap1 = _snapshot()
+    out["shared_changed"] = sorted(k for k in set(snap0) | set(snap1) if snap0.get(k) != snap1.get(k))
     if case.get("history"):
         fresh = _fit(_new(case), case, y, xs, w)
         out["fresh"] = dict(y_hat=np.asarray(fresh.y_hat).ravel().tolist(), beta=np.asarray(fresh.beta_hat).ravel().tolist(),
@@ -673,6 +742,11 @@ def _oracle_predict(case, impl, vs, bad, y_hat, causes):
     e = np.abs(np.array(impl["pred_nodes"]) - np.array(impl["nodes_ref"])).max() / max(np.abs(y_hat).max(), 1e-300)
     if not e <= 1e-10:
         bad("predict_fit_grid", f"predict on a subset of the fitting grid differs from the fitted values there by {e:.3g}", ["query_subset"])
+    # nothing shared between instances
+    if impl.get("interleave_bad"):
+        bad("interleaved_instances", impl["interleave_bad"], causes)
+    if impl.get("shared_changed"):
+        bad("shared_state", f"class attributes / module globals changed while objects were fitted: {impl['shared_changed'][:4]}", causes)
     # rejected calls must leave the fitted state usable and consistent
     for r in impl.get("rejected", []):
         if r["outcome"].startswith("error") and r.get("state") != "ok":
@@ -711,6 +785,8 @@ def classify(case, impl):
         tags.append("explicit-domain")
     if case.get("history"):
         tags.append("history:refit")
+    if impl and "interleave_bad" in impl:
+        tags.append("history:interleaved-instances")
     for r in (impl or {}).get("rejected", []):
         tags.append("rejected:" + r["kind"] + ":" + r["outcome"].split(":")[0])
     for dd in case["dims"]:
